@@ -2732,7 +2732,16 @@ class HTTPChannel(basic.LineReceiver, policies.TimeoutMixin):
                 sanitizedHeaders.addRawHeader(name, value)
             headers = sanitizedHeaders
 
-        headerSequence = [version, b" ", code, b" ", reason, b"\r\n"]
+        # The reason phrase is application-supplied (Request.setResponseCode);
+        # like header values it must not be able to terminate the status line.
+        headerSequence = [
+            version,
+            b" ",
+            code,
+            b" ",
+            _sanitizeLinearWhitespace(reason),
+            b"\r\n",
+        ]
         for name, values in headers.getAllRawHeaders():
             for value in values:
                 headerSequence.extend((name, b": ", value, b"\r\n"))
